@@ -175,6 +175,11 @@ fn compare(body: &[Stmt], ctx_variant: u8) -> Verdict {
                 );
             }
         }
+        // the fuel budget is the harness' own protection against endless programs
+        (Ok(_), Err(e)) if e.kind() == minijinja::ErrorKind::OutOfFuel => {
+            v.nontrivial = false;
+            v.labels.push("out_of_fuel");
+        }
         (Ok(w), Err(e)) => v.set_fail(
             "engine_fails_on_valid_program",
             format!("documented semantics give {w:?} but the engine fails: {e:#}\nsource: {source}"),
